@@ -41,9 +41,15 @@ WEIGHT = {"pc_map": 3, "pp_map_oatep_k12": 2, "pp_map_tatep_k12": 2, "pp_map_wei
 
 def parts(tier):
     q = tier == "quick"
-    return [dict(part="BN_P256", cfg="asan256", shards=6 if q else 8),
-            dict(part="SM9_P256", cfg="asan256", shards=5 if q else 8),
-            dict(part="B12_P381", cfg="asan381", shards=5 if q else 8)]
+    P = [dict(part="BN_P256", cfg="asan256", shards=6 if q else 8),
+         dict(part="SM9_P256", cfg="asan256", shards=5 if q else 8),
+         dict(part="B12_P381", cfg="asan381", shards=5 if q else 8)]
+    if not q:
+        # k = 12 families at other field sizes (the unchanged tree is silent there); the k = 8/16/18/24 families need
+        # pp_map_*_k8/k16/k18/k24 with ep4/ep3/ep8 models and are not covered
+        P += [dict(part="BN_P382", cfg="asan382", shards=3), dict(part="B12_P377", cfg="asan377", shards=3),
+              dict(part="BN_P446", cfg="asan446", shards=3)]
+    return P
 
 
 class World(object):
@@ -197,16 +203,16 @@ def run(ctx, part):
     W = World(R, ctx, part)
     F12, r, K = W.F12, W.r, R.K
     ctx.note("parameter_sets", [part])
-    ctx.note("setup_" + part, {"pairf": W.P["pairf"], "embedding_degree": R.L.ep_curve_embed(), "ep_add": R.target("ep_add"),
+    ctx.note("setup_" + part, {"pairf": str(W.P["pairf"]), "embedding_degree": str(R.L.ep_curve_embed()), "ep_add": R.target("ep_add"),
                                "coordinate_system_of_projective_inputs": W.system,
-                               "twist_library": R.L.ep2_curve_is_twist(), "twist_by_model(b' = b/xi: D, b*xi: M)": W.twist_model,
+                               "twist_library": str(R.L.ep2_curve_is_twist()), "twist_by_model(b' = b/xi: D, b*xi: M)": W.twist_model,
                                "dispatch": {m: R.target(m) for m in ("pc_map", "pc_map_sim")},
                                "measured_nonresidues": {str(d): repr(v) for d, v in W.M.nr.items()},
                                "measurement_problems": [repr(q) for q in W.M.problems]})
     singles = [f for f in SINGLE if R.has(f)]
     sims = [f for f in SIM if R.has(f)]
     ctx.note("functions_not_built", [f for f in SINGLE + list(SIM) + ["pp_exp_k12"] if not R.has(f)])
-    tag = "@" + part
+    tag = "@%s;p%%8=%d" % (part, W.p % 8)
     szg1, szg2, szgt = K["sizeof_ep_st"], W.sz2, R.fp_sz * 12
     Pp, Qq = R.mem(szg1, 0), R.mem(szg2, 0)
     e0 = R.fpx_new(12)
@@ -365,7 +371,6 @@ def run(ctx, part):
 
     # ---------------------------------------------------------------- directed enumeration (split over the shards)
     n = 0
-    nid1 = [i for i, e in enumerate(pool1)]
     for fn in singles:
         for i in range(len(pool1)):
             # every scalar class in either slot against a generic partner, and the identity/identity pair
@@ -385,6 +390,8 @@ def run(ctx, part):
                     sim_case(fn, m, want)
     # ---------------------------------------------------------------- random phase
     N = ctx.n(420, 8000) // ctx.nshards
+    if part not in ("BN_P256", "SM9_P256", "B12_P381"):
+        N = ctx.n(420, 900) // ctx.nshards          # sweep sizes: slower models
     ws = [WEIGHT[f] for f in singles]
     wm = [WEIGHT[f] for f in sims]
     for it in range(N):
